@@ -276,6 +276,33 @@ def do_janssen(c):
                     sc.append("nan")
             pt["scan"] = sc
         res["points"].append(pt)
+    # a second configuration on the SAME generator object, spectrum object and wind arrays (as in a
+    # calibration sweep): the roughness must satisfy the stress balance of the configuration in force
+    if c.get("second"):
+        gen.update_parameters({k: unhx(v) for k, v in c["second"].items()})
+        z2 = gen.roughness(U, D, spec, wind_speed_input_type=typ).values
+        rho = gen.parameters["air_density"]; kap = gen.parameters["vonkarman_constant"]; elev = gen.parameters["elevation"]
+        sec = {"z": out(z2), "points": []}
+        judged = False
+        for i in range(n):
+            pt = {}
+            if not judged and seas[i].get("scan", True) and np.isfinite(z2[i]) and z2[i] > 0:
+                judged = True
+                try:
+                    lhs, st = balance_at(i, float(z2[i]))
+                    pt["lhs"] = hx(lhs); pt["stress"] = hx(st)
+                except Exception as e:  # noqa
+                    pt["residual_error"] = type(e).__name__ + ": " + str(e)[:100]
+                sc = []
+                for x in xs:
+                    try:
+                        lhs, st = balance_at(i, float(np.exp(x)))
+                        sc.append(hx(lhs - st))
+                    except Exception:  # noqa
+                        sc.append("nan")
+                pt["scan"] = sc
+            sec["points"].append(pt)
+        res["second"] = sec
     return res
 
 
